@@ -1100,7 +1100,7 @@ func scenarioDiffdb(cfg config, r *hx.Rng) (rec, []mmRec) {
 
 func main() {
 	out := flag.String("out", "", "output JSONL file (required)")
-	scenario := flag.String("scenario", "all", "cache|bulk|torn|certpool|events|evclose|evquit|diffdb|syncfan|all")
+	scenario := flag.String("scenario", "all", "cache|bulk|torn|certpool|events|evclose|evquit|diffdb|diffnest|syncfan|all")
 	readers := flag.Int("readers", 8, "number of concurrent reader / worker goroutines")
 	ms := flag.Int("ms", 1500, "stress duration per scenario in milliseconds")
 	rounds := flag.Int("rounds", 200, "bulk lookup rounds (each of the concurrent goroutines performs one lookup per round)")
@@ -1120,7 +1120,7 @@ func main() {
 		name string
 		fn   func(config, *hx.Rng) (rec, []mmRec)
 	}
-	all := []sc{{"cache", scenarioCache}, {"bulk", scenarioBulk}, {"torn", scenarioTorn}, {"certpool", scenarioCertpool}, {"events", scenarioEvents}, {"evclose", scenarioEvClose}, {"evquit", scenarioEvQuit}, {"diffdb", scenarioDiffdb}, {"syncfan", scenarioSyncFan}}
+	all := []sc{{"cache", scenarioCache}, {"bulk", scenarioBulk}, {"torn", scenarioTorn}, {"certpool", scenarioCertpool}, {"events", scenarioEvents}, {"evclose", scenarioEvClose}, {"evquit", scenarioEvQuit}, {"diffdb", scenarioDiffdb}, {"syncfan", scenarioSyncFan}, {"diffnest", scenarioDiffNest}}
 	todo := []sc{}
 	for _, s := range all {
 		if *scenario == "all" || *scenario == s.name {
